@@ -459,7 +459,7 @@ def _body(res, tier, obs, model, work, proved):
     for name, mk in WITNESSES:
         hs.append(mk())
     hs += enumerate_pairs(rng)
-    nrand = {3: 900, 4: 900} if tier == "quick" else {3: 6000, 4: 9000, 5: 9000, 6: 9000}
+    nrand = {3: 900, 4: 900} if tier == "quick" else {3: 15000, 4: 25000, 5: 30000, 6: 40000}
     n = 0
     for length, cnt in sorted(nrand.items()):
         for _ in range(cnt):
@@ -592,6 +592,10 @@ def _body(res, tier, obs, model, work, proved):
         res.violation(v)
     if oracle_viol:
         return
+    if proved and tier == "thorough":
+        if not C.coqchk(res, PROP):
+            proved = False
+            res.broken = {"log_tail": res.coverage.get("coqchk", {}).get("tail", ""), "errors": []}
     if not proved:
         res.violation({"property": PROP, "kind": "proof-obligation-broken", "theorem_file": "coq/props/C07.v",
                        "broken": res.broken, "search": "%d invocations in %d histories: no failing input" % (evals, len(hs))},
